@@ -195,7 +195,14 @@ func c18Build(c *c18Case) (shared []any, ops []c18Op, err error) {
 	if err != nil {
 		return nil, nil, err
 	}
-	if c.KeyIdx == -1 {
+	if c.KeyIdx == -1 && len(c.Plan)%2 == 0 {
+		// a private Ed25519 key that carries only d (RFC 9053 7.2 merely recommends x): no verifier, and asking for one changes nothing
+		seed := []byte("c18-ed25519-seed-of-32-bytes!!!!")
+		if k2, err := cose.NewKeyOKP(cose.AlgorithmEdDSA, nil, seed); err == nil {
+			key = k2
+			stats.Class("key/okp-seed-only")
+		}
+	} else if c.KeyIdx == -1 {
 		// a hand-built key may hold its coordinates as any byte-slice type (the accessors' documentation
 		// allows it): here the Go key type itself
 		if x, ok := key.Params[cose.KeyLabelOKPX].([]byte); ok {
